@@ -133,6 +133,8 @@ class StmtOps:
 
     def ex_Assign(self, node):
         v = self.ev(node.value)
+        if len(node.targets) == 1 and isinstance(node.targets[0], ast.Name):
+            v = self.share(v, node.targets[0].id)
         for t in node.targets:
             self.assign(t, v, node)
 
@@ -314,6 +316,12 @@ class StmtOps:
         st = self.st
         if tyhint is not None:
             ty = parse_ty(tyhint)
+            if len(ty) == 1 and atom_kind(next(iter(ty))) == 'list':
+                q = st.decls.const(name + '_q', 'Int')
+                st.assume(mk_le('0', "(len %s)" % q), 'wf')
+                sv2 = SV('list', seq=q, owned=True, ty=ty)
+                self.assume_elem_types(q, self.elem_ty(sv2))
+                return sv2
             t = st.decls.const(name, 'Val')
             return self.unbox(t, ty)
         k = sv.kind
